@@ -2,9 +2,9 @@ package props
 
 import (
 	"fmt"
-	"sort"
 	"go/token"
 	"go/types"
+	"sort"
 
 	"golang.org/x/tools/go/ssa"
 
@@ -60,29 +60,71 @@ func checkC15(c *core.Ctx, r *core.Report) {
 		return
 	}
 	// item stores
+	// An item store is a store into an element of the items slice made by HandleBulkBody itself, or a call of a
+	// helper of the package that makes it on HandleBulkBody's behalf (see itemStoreHelper): the call then stands
+	// for a success store on the edge where the helper answered true and for a failure store on the other edge,
+	// and the values it is handed decide the status like the conditions around a direct store do.
 	type itemStore struct {
-		st      *ssa.Store
-		success bool
+		st        ssa.Instruction // the store, or the helper call
+		idx       ssa.Value       // the slot
+		success   bool
+		failStart *ssa.BasicBlock // where the walk of clause (3) starts
+		deciders  []ssa.Value     // values handed to a helper that decide the status there
 	}
 	var stores []itemStore
 	okItem := c.Global(pkgEsWriter, "resp_status_201")
+	isOkItem := func(v ssa.Value) bool {
+		for _, o := range c.Origins(v, 0) {
+			if o.Kind == "global" && o.Obj == okItem.Object() {
+				return true
+			}
+		}
+		return false
+	}
 	for _, b := range fn.Blocks {
 		for _, in := range b.Instrs {
-			st, ok := in.(*ssa.Store)
-			if !ok {
-				continue
-			}
-			ia, ok := st.Addr.(*ssa.IndexAddr)
-			if !ok || !itemsWeb[ia.X] {
-				continue
-			}
-			succ := false
-			for _, o := range c.Origins(st.Val, 0) {
-				if o.Kind == "global" && o.Obj == okItem.Object() {
-					succ = true
+			switch x := in.(type) {
+			case *ssa.Store:
+				ia, ok := x.Addr.(*ssa.IndexAddr)
+				if !ok || !itemsWeb[ia.X] {
+					continue
+				}
+				stores = append(stores, itemStore{st: x, idx: ia.Index, success: isOkItem(x.Val), failStart: x.Block()})
+			case *ssa.Call:
+				h := x.Call.StaticCallee()
+				if h == nil || h.Blocks == nil || core.FnPkgPath(h) != core.FnPkgPath(fn) {
+					continue
+				}
+				sliceIdx := -1
+				for i, a := range x.Call.Args {
+					if itemsWeb[a] {
+						sliceIdx = i
+					}
+				}
+				if sliceIdx < 0 {
+					continue
+				}
+				sum, why := itemStoreHelper(h, sliceIdx, isOkItem)
+				if sum == nil {
+					r.Undecided("LIVE", name+":item-store-helper("+h.Name()+")", c.Pos(x.Pos()), "the items slice is handed to a helper whose stores could not be summarised: "+why)
+					continue
+				}
+				// the edges on which the helper's answer is known
+				var okSucc, failSucc *ssa.BasicBlock
+				if ifi, ok := core.LastIf(x.Block()); ok && ifi.Cond == ssa.Value(x) {
+					okSucc, failSucc = x.Block().Succs[0], x.Block().Succs[1]
+				}
+				var dec []ssa.Value
+				for _, pi := range sum.deciders {
+					dec = append(dec, x.Call.Args[pi])
+				}
+				if sum.hasSuccess {
+					stores = append(stores, itemStore{st: x, idx: x.Call.Args[sum.idxParam], success: true, failStart: okSucc, deciders: dec})
+				}
+				if sum.hasFailure {
+					stores = append(stores, itemStore{st: x, idx: x.Call.Args[sum.idxParam], success: false, failStart: failSucc, deciders: dec})
 				}
 			}
-			stores = append(stores, itemStore{st, succ})
 		}
 	}
 	r.Floor("LIVE", "response item stores in HandleBulkBody", len(stores), 3)
@@ -98,6 +140,9 @@ func checkC15(c *core.Ctx, r *core.Report) {
 	// ---------------------------------------------------------------- (1) no loop-carried decision values
 	decided := map[ssa.Value]bool{}
 	for _, s := range stores {
+		for _, d := range s.deciders {
+			decided[d] = true
+		}
 		for b := s.st.Block(); b != nil && b != loop.Header; b = b.Idom() {
 			idom := b.Idom()
 			if idom == nil || !loop.Body[idom] {
@@ -168,7 +213,7 @@ func checkC15(c *core.Ctx, r *core.Report) {
 			if !loop.Body[s.st.Block()] {
 				continue
 			}
-			idx := s.st.Addr.(*ssa.IndexAddr).Index
+			idx := s.idx
 			if bo, ok := idx.(*ssa.BinOp); ok && bo.Op == token.SUB {
 				idx = bo.X
 			}
@@ -236,7 +281,7 @@ func checkC15(c *core.Ctx, r *core.Report) {
 				return false
 			}
 			for i, s := range stores {
-				idx := s.st.Addr.(*ssa.IndexAddr).Index
+				idx := s.idx
 				r.Check(fromCounter(idx, 0), "DEPENDS", fmt.Sprintf("%s:item-store#%d-goes-into-the-action's-own-slot", name, i+1), c.Pos(s.st.Pos()),
 					"the slot is the action counter minus one (directly or remembered per event)",
 					"a response item is stored into a slot that is not derived from the per-action counter (another counter skips deletes, updates and rejected documents): the status lands on a different action's item, so a stored document is reported failed and the failed one keeps its 201")
@@ -245,7 +290,7 @@ func checkC15(c *core.Ctx, r *core.Report) {
 			var leak ssa.Instruction
 			isSlotStore := map[ssa.Instruction]bool{}
 			for _, s := range stores {
-				if fromCounter(s.st.Addr.(*ssa.IndexAddr).Index, 0) {
+				if fromCounter(s.idx, 0) {
 					isSlotStore[s.st] = true
 				}
 			}
@@ -288,7 +333,10 @@ func checkC15(c *core.Ctx, r *core.Report) {
 		}
 		nFail++
 		construct := fmt.Sprintf("%s:failure-item-sets-errors-flag#%d", name, nFail)
-		ok, detail := failureSetsFlag(s.st, errorsWeb, loop)
+		ok, detail := false, "the helper's failure answer is not tested right after the call"
+		if s.failStart != nil {
+			ok, detail = failureSetsFlag(s.failStart, errorsWeb, loop)
+		}
 		if ok {
 			r.OK("DEPENDS", construct, c.Pos(s.st.Pos()), detail)
 		} else {
@@ -473,13 +521,13 @@ func loopCarried(v ssa.Value, loop *core.Loop, seen map[ssa.Value]bool, depth in
 
 // failureSetsFlag: on the path that continues from the failure store to the next
 // iteration, the errors-flag phi web receives the constant true.
-func failureSetsFlag(st *ssa.Store, web map[ssa.Value]bool, loop *core.Loop) (bool, string) {
+func failureSetsFlag(start *ssa.BasicBlock, web map[ssa.Value]bool, loop *core.Loop) (bool, string) {
 	// An assignment `flag = true` is not an instruction in SSA: it shows as the constant true on the edge into
 	// the next join that merges the flag.  Follow every path from the store to its first such join.
 	type edge struct{ from, to *ssa.BasicBlock }
 	seen := map[*ssa.BasicBlock]bool{}
-	work := []*ssa.BasicBlock{st.Block()}
-	seen[st.Block()] = true
+	work := []*ssa.BasicBlock{start}
+	seen[start] = true
 	checked := 0
 	for len(work) > 0 {
 		b := work[len(work)-1]
@@ -565,3 +613,131 @@ func feedsReturnOrResponse(p *ssa.Phi) bool {
 }
 
 var _ = types.Universe
+
+// itemHelperSummary describes a helper that stores the response item of one bulk action on its caller's behalf.
+type itemHelperSummary struct {
+	idxParam               int   // the parameter that is the slot
+	deciders               []int // the parameters the status is decided by
+	hasSuccess, hasFailure bool
+}
+
+// itemStoreHelper summarises h when it is such a helper: every store into an element of its slice parameter
+// uses one index parameter; every path to a return passes a store; it returns true exactly after a success
+// store (the shared 201 item) and false exactly after a failure store; the conditions that choose between
+// the stores are tests of its own parameters.
+func itemStoreHelper(h *ssa.Function, sliceIdx int, isOkItem func(ssa.Value) bool) (*itemHelperSummary, string) {
+	if sliceIdx >= len(h.Params) {
+		return nil, "parameter mismatch"
+	}
+	slice := h.Params[sliceIdx]
+	sum := &itemHelperSummary{idxParam: -1}
+	type hs struct {
+		st   *ssa.Store
+		succ bool
+	}
+	var stores []hs
+	paramIdx := func(v ssa.Value) int {
+		for i := 0; i < 3; i++ {
+			switch x := v.(type) {
+			case *ssa.UnOp:
+				if x.Op == token.NOT {
+					v = x.X
+					continue
+				}
+			case *ssa.Convert:
+				v = x.X
+				continue
+			}
+			break
+		}
+		for i, p := range h.Params {
+			if ssa.Value(p) == v {
+				return i
+			}
+		}
+		return -1
+	}
+	for _, b := range h.Blocks {
+		for _, in := range b.Instrs {
+			st, ok := in.(*ssa.Store)
+			if !ok {
+				continue
+			}
+			ia, ok := st.Addr.(*ssa.IndexAddr)
+			if !ok || ia.X != ssa.Value(slice) {
+				continue
+			}
+			pi := paramIdx(ia.Index)
+			if pi < 0 || (sum.idxParam >= 0 && sum.idxParam != pi) {
+				return nil, "a store uses a slot that is not one index parameter"
+			}
+			sum.idxParam = pi
+			stores = append(stores, hs{st, isOkItem(st.Val)})
+			// the conditions that lead to this store are tests of parameters
+			for d := b; d != nil && d.Idom() != nil; d = d.Idom() {
+				ifi, ok := core.LastIf(d.Idom())
+				if !ok || len(d.Preds) != 1 {
+					continue
+				}
+				pc := paramIdx(ifi.Cond)
+				if pc < 0 {
+					return nil, "a condition choosing the item is not a parameter"
+				}
+				dup := false
+				for _, e := range sum.deciders {
+					if e == pc {
+						dup = true
+					}
+				}
+				if !dup {
+					sum.deciders = append(sum.deciders, pc)
+				}
+			}
+		}
+	}
+	if len(stores) == 0 {
+		return nil, "no store into the slice parameter"
+	}
+	sort.Ints(sum.deciders)
+	isStore := map[ssa.Instruction]*hs{}
+	for i := range stores {
+		isStore[stores[i].st] = &stores[i]
+	}
+	// every path to a return passes a store
+	missed := false
+	core.WalkForward(h, nil, func(in ssa.Instruction) bool {
+		if isStore[in] != nil {
+			return false
+		}
+		if _, ok := in.(*ssa.Return); ok {
+			missed = true
+		}
+		return true
+	})
+	if missed {
+		return nil, "a path through the helper stores no item"
+	}
+	// the answer tells which kind of item was stored
+	for i := range stores {
+		st := &stores[i]
+		if st.succ {
+			sum.hasSuccess = true
+		} else {
+			sum.hasFailure = true
+		}
+		bad := ""
+		core.WalkForward(h, st.st, func(in ssa.Instruction) bool {
+			if ret, ok := in.(*ssa.Return); ok {
+				k, isK := ret.Results[0].(*ssa.Const)
+				if len(ret.Results) != 1 || !isK || k.Value == nil || (k.Value.String() == "true") != st.succ {
+					bad = "the helper's answer does not tell a success item from a failure item"
+				}
+			}
+			return true
+		})
+		if bad != "" {
+			return nil, bad
+		}
+	}
+	return sum, ""
+}
